@@ -2045,8 +2045,8 @@ class Numpy:
         A, Al = self.dense(I, a[0], "solve_discrete_lyapunov")
         Q, Ql = self.dense(I, a[1], "solve_discrete_lyapunov")
         m = A.shape[0]
-        if A.shape != (m, m) or Q.shape != (m, m):
-            raise Unsupported("solve_discrete_lyapunov: non-square arguments")
+        if A.ndim != 2 or Q.ndim != 2 or A.shape != (m, m) or Q.shape != (m, m):
+            I.raise_exc(ValueError, "solve_discrete_lyapunov: a and q must be square matrices of the same shape")      # scipy raises ValueError
         uid = I.ctx.fresh_name("lyap")
         X = [[SV(z3.Real(f"{uid}.x{i}_{j}")) for j in range(m)] for i in range(m)]
         for i in range(m):
